@@ -5,21 +5,35 @@
 #include <netdb.h>
 #include <arpa/inet.h>
 
-static int lk_kind = 'N', lk_port = 0, lk_ok = 0, proto_calls = 0;
+static int lk_kind = 'N', lk_port = 0, lk_ok = 0, proto_calls = 0, lk_badarg = 0;
+static char lk_word[4096];        /* the protocol word the parser must ask about */
 static struct protoent lv_pe;
 static struct servent lv_se;
 
+/* The lookups answer from the case line AND check what they are asked: the first getprotobyname
+ * and every getservbyname must name the URL's protocol word, getservbyname's transport must be
+ * "tcp" then "udp", and the follow-up getprotobyname must name the s_proto of the entry returned
+ * ('S' = a tcp service, 'U' = a service that exists under udp only). */
+static const char *lv_sproto = "tcp";
 struct protoent *getprotobyname(const char *name)
 {
     proto_calls++;
-    if (proto_calls == 1) return (lk_kind == 'P') ? &lv_pe : NULL;
+    if (proto_calls == 1) {
+        if (!name || strcmp(name, lk_word)) lk_badarg |= 1;
+        return (lk_kind == 'P') ? &lv_pe : NULL;
+    }
+    if (!name || strcmp(name, lv_sproto)) lk_badarg |= 2;
     return lk_ok ? &lv_pe : NULL;
 }
 struct servent *getservbyname(const char *name, const char *proto)
 {
-    if (lk_kind != 'S') return NULL;
+    if (!name || strcmp(name, lk_word)) lk_badarg |= 4;
+    if (!proto || (strcmp(proto, "tcp") && strcmp(proto, "udp"))) { lk_badarg |= 8; return NULL; }
+    if (lk_kind == 'S' && !strcmp(proto, "tcp")) lv_sproto = "tcp";
+    else if (lk_kind == 'U' && !strcmp(proto, "udp")) lv_sproto = "udp";
+    else return NULL;
     lv_se.s_port = htons((unsigned short) lk_port);
-    lv_se.s_proto = (char *) "tcp";
+    lv_se.s_proto = (char *) lv_sproto;
     return &lv_se;
 }
 
@@ -37,8 +51,14 @@ static void run_case(int n, char **t)
     if (n == 3 && !strcmp(t[0], "url")) {
         char *text = lv_unhex_str(t[2]);
         spif_url_t u;
-        lk_kind = t[1][0]; lk_port = 0; lk_ok = 0; proto_calls = 0;
-        if (lk_kind == 'S') sscanf(t[1], "S:%d:%d", &lk_port, &lk_ok);
+        lk_kind = t[1][0]; lk_port = 0; lk_ok = 0; proto_calls = 0; lk_badarg = 0;
+        if (lk_kind == 'S' || lk_kind == 'U') sscanf(t[1] + 2, "%d:%d", &lk_port, &lk_ok);
+        {   /* the word the parser will look up: the text before the first ':' if it is all alphanumeric */
+            const char *c = strchr(text, ':');
+            size_t n = c ? (size_t) (c - text) : 0;
+            if (n >= sizeof(lk_word)) n = sizeof(lk_word) - 1;
+            memcpy(lk_word, text, n); lk_word[n] = 0;
+        }
         u = spif_url_new_from_ptr((spif_charptr_t) text);
         free(text);                     /* the URL must own copies */
         if (SPIF_URL_ISNULL(u)) { printf("NULLURL"); return; }
@@ -46,6 +66,7 @@ static void run_case(int n, char **t)
         put_comp(spif_url_get_proto(u)); put_comp(spif_url_get_user(u)); put_comp(spif_url_get_passwd(u));
         put_comp(spif_url_get_host(u)); put_comp(spif_url_get_port(u)); put_comp(spif_url_get_path(u));
         put_comp(spif_url_get_query(u));
+        if (lk_badarg) printf(" BADLOOKUPARG:%d", lk_badarg);
         spif_url_unparse(u);
         printf(" U ");
         lv_puthex(SPIF_STR_STR(SPIF_STR(u)), spif_str_get_len(SPIF_STR(u)));
